@@ -3,7 +3,7 @@ from common import COMMON_TB
 PROP = {
     "bin": "c10",
     "prop_file": "Properties/C10.v",
-    "model_files": ["Storage/Crash.v", "Storage/CrashProofs.v", "Storage/GC.v", "Storage/Proto.v", "Storage/ProtoProofs.v"],
+    "model_files": ["Storage/Crash.v", "Storage/CrashProofs.v", "Storage/GC.v", "Storage/TempStore.v", "Storage/Proto.v", "Storage/ProtoProofs.v"],
     "level": "proof",
     "engine": "E1-storage",
     "level_text": "Proof (partial): ManagedDirectory bookkeeping (register-then-create, garbage_collect = delete managed \\ living and un-register) is modelled and "
